@@ -10,7 +10,7 @@ def run(ctx, prefixes, nwork_q, nwork_t, depth_q, depth_t, what):
     thorough = ctx.tier == "thorough"
     crash.design_mc(ctx)
     tr, res, nprobes, points = crash.pipeline(ctx, nwork_t if thorough else nwork_q, depth_t if thorough else depth_q,
-                                              torn=True, nest_every=1 if thorough else 4)
+                                              torn=True, nest_every=1 if (thorough or ctx.prop == "C20") else 4)
     judge(ctx, res, tr, what, prefixes=prefixes)
     c, outcomes, nested, torn = crash.stats(tr)
     for k in ("Begin", "Write", "CommitRet", "AbortRet", "CkptRet", "WLog", "WPage"):
